@@ -115,6 +115,7 @@ func cmdCheck(args []string) {
 	// undecided queries are retried with further seeds (any unsat answer is a proof).
 	solverSeed = 0
 	tc := tiers[*tier]
+	thoroughTier = *tier == "thorough"
 	t0 := time.Now()
 	if os.Getenv("GOVC_NO_MEMO") == "" {
 		// memoization of discharged queries between the per-property commands of one sandbox
